@@ -31,8 +31,8 @@ Definition qnormalize (p : quat (T:=float)) : quat (T:=float) :=
 Definition diag (c : case) : list bool :=
   [ m_close (qu2om FOps (q c)) (om c);
     ang_close (qu2eu FOps (q c)) (eu c);
-    v_close (scale3 (qu2ax FOps (q c))) (ax3 c);
-    q_close (ax2ro FOps (qu2ax FOps (q c))) (rof c);
+    v_close (scale3 (qu2ax FOps (qpos FOps (q c)))) (ax3 c);
+    q_close (ax2ro FOps (qu2ax FOps (qpos FOps (q c)))) (rof c);
     v_close (qu2ho FOps (q c)) (ho c);
     q_close (om2qu FOps (om c)) (q_om c);
     q_close (eu2qu FOps (eu c)) (q_eu c);
